@@ -19,11 +19,14 @@ def reads(root, order):
     ms = root.members
     for j in order:
         m = ms[j % len(ms)]
-        for a in SCAL + (["capital"] if isinstance(m, StrategyBase) else ["position"]):
-            out[(m.full_name, a)] = float(getattr(m, a))
-        for a in (SER_STRAT if isinstance(m, StrategyBase) else SER_SEC):
-            ser = getattr(m, a)
-            out[(m.full_name, a)] = (str(ser.index[-1]) if len(ser) else None, ser.to_numpy(dtype=float).tobytes())
+        attrs = [(a, False) for a in SCAL + (["capital"] if isinstance(m, StrategyBase) else ["position"])] + [(a, True) for a in (SER_STRAT if isinstance(m, StrategyBase) else SER_SEC)]
+        if order != sorted(order): attrs = [attrs[i] for i in np.random.RandomState(int(sum(order)) + j).permutation(len(attrs))]      # any accessor may be the first to meet the pending changes
+        for a, is_series in attrs:
+            if is_series:
+                ser = getattr(m, a)
+                out[(m.full_name, a)] = (str(ser.index[-1]) if len(ser) else None, ser.to_numpy(dtype=float).tobytes())
+            else:
+                out[(m.full_name, a)] = float(getattr(m, a))
     return out
 def same(a, b):
     for k in a:
@@ -50,8 +53,11 @@ for it in range(N):
     distinct.add((nested, intpos, fk, spread))
     closed = {}          # date -> {node: bytes of the row} as it stood when the date ended
     try:
+        dyn_at = int(rs.randint(2, n)) if rs.rand() < 0.5 else -1
         for d in range(1, n):
             root.update(idx[d])
+            if d == dyn_at:         # a child strategy attached during the run: not updated yet (its own clock is still at the start), funded at once
+                dyn = Strategy("dyn", [], [], parent=root); dyn.setup_from_parent(); root.allocate(1000.0, "dyn")
             for _ in range(int(rs.randint(1, 5))):
                 s = strats[int(rs.randint(len(strats)))]; k = str(rs.choice(decl[s.name]))
                 op = str(rs.choice(["adjust", "fund", "rebalance", "close", "transact", "update", "flatten", "wash"]))
@@ -68,7 +74,11 @@ for it in range(N):
                     evals += 1
                     nm = len(root.members); order = list(rs.permutation(nm))
                     A_, B_, C_ = copy.deepcopy(root), copy.deepcopy(root), copy.deepcopy(root)
-                    ra = reads(A_, order)                                   # read with changes pending (any node first)
+                    try:
+                        ra = reads(A_, order)                               # read with changes pending (any node first)
+                    except ZeroDivisionError: raise
+                    except Exception as e_:
+                        bad("a-read-with-pending-changes-raised", error=repr(e_)[:200], after=repr(op), root_now=str(A_.now)); raise StopIteration
                     B_.update(B_.now); rb = reads(B_, list(range(nm)))      # explicit update, then read
                     k_ = same(rb, ra)
                     if k_: bad("read-with-pending-changes-differs-from-read-after-update", node=k_[0], property=k_[1], after=repr(op), pending_flag=bool(root.stale)); raise StopIteration
@@ -88,5 +98,5 @@ for it in range(N):
     except ZeroDivisionError: pass       # a return base driven to zero: ill-formed history (C10)
     if it < 2: samples.append(dict(nested=nested, dates=n, final_value=float(root.value)))
 print("JSON:" + json.dumps(dict(evaluations=evals, distinct=len(distinct), failures=fails[:5], samples=samples,
-      rule="flat / nested trees, whole or fractional units, 3 fee shapes, optional spreads; 1-4 random operations per date (adjust, fund a child, rebalance, close, transact, flatten, update) with the default update flag; after about half of them three deep copies of the tree are compared: read as is (random node order) / update then read / update 1-3 more times then read - 4-5 scalars and 5-6 series per node, byte for byte; rows of closed dates re-read at every later date",
+      rule="flat / nested trees (in half of the histories a child strategy is attached and funded during the run), whole or fractional units, 3 fee shapes, optional spreads; 1-4 random operations per date (adjust, fund a child, rebalance, close, transact, flatten, update) with the default update flag; after about half of them three deep copies of the tree are compared: read as is (random node order) / update then read / update 1-3 more times then read - 4-5 scalars and 5-6 series per node, byte for byte; rows of closed dates re-read at every later date",
       bound="%d histories of 3-7 dates" % N)))
